@@ -213,7 +213,10 @@ def g_shape(ch: core.Chooser, name: str) -> dict:
     if name == "reshape":
         targets = {1: [(), (1,), (1, 1)], 2: [(2,), (1, 2), (-1,)], 3: [(3,), (3, 1), (1, 3)], 4: [(4,), (2, 2), (-1, 2)], 5: [(5,), (5, 1)],
                    6: [(6,), (2, 3), (3, 2), (-1,), (1, 2, 3)], 8: [(8,), (2, 4), (2, 2, 2)], 12: [(12,), (3, 4), (2, 6), (2, 3, 2), (-1, 3)]}[size]
-        return {"args": [a, {"tuple": list(ch.choice(targets))}], "kwargs": {}}
+        kw = {"order": ch.sub("order").choice(["A", "A", "F", "C"])} if ch.sub("order").chance(0.35) else {}
+        if kw and len(shape) >= 2 and ch.sub("order").chance(0.6):
+            a["dress"] = 3  # order="A" looks at the memory layout: give it a column-major one
+        return {"args": [a, {"tuple": list(ch.choice(targets))}], "kwargs": kw}
     if name == "transpose":
         return {"args": [a], "kwargs": {}}
     if name == "moveaxis":
@@ -449,7 +452,10 @@ def _build(v: Any, side: str) -> Any:
     if isinstance(v, dict):
         if "const" in v:
             arr = model.build_array(v["const"])
-            return arr if side == "numpy" else _dress(arr, v.get("dress", 0))
+            if side == "numpy":
+                # the reference gets the same memory layout (it matters to order="A"/"K")
+                return numpy.ascontiguousarray(arr.T).T if v.get("dress") == 3 else arr
+            return _dress(arr, v.get("dress", 0))
         if "plain" in v:
             return model.build_array(v["plain"])
         if "alias" in v:
